@@ -19,6 +19,9 @@ pub enum Flavour {
     NotATtyHz,
     HiddenMulti,
     RemovedFromMulti,
+    /// member of a MultiProgress on a stderr that is not a TTY (the bar can be removed, which leaves the
+    /// MultiProgress empty; MultiProgress::println is in the alphabet)
+    NotATtyMulti,
     /// member of a hidden MultiProgress, removed, after which the MultiProgress is given a visible target
     RemovedFromHiddenMultiThenShown,
 }
@@ -30,6 +33,8 @@ pub enum Op {
     Remove,
     /// the same, with the k-th terminal call made during the removal failing once
     RemoveFaulty(u8),
+    /// MultiProgress::println on the subject's MultiProgress
+    MpPrintln,
 }
 
 pub struct C06 {
@@ -101,8 +106,11 @@ impl Hist for C06 {
             v.retain(|o| !matches!(o, BOp::Inc(7) | BOp::Dec(1) | BOp::IncLen(_) | BOp::Style(_) | BOp::ResetEta | BOp::AbandonMsg(_) | BOp::FinishMsg(_) | BOp::UpdatePos(_) | BOp::Prefix(_)));
         }
         let mut out: Vec<Op> = v.into_iter().map(Op::B).collect();
-        if self.flavour == Flavour::RemovedFromHiddenMultiThenShown && !prefix.iter().any(|o| matches!(o, Op::Remove)) {
+        if matches!(self.flavour, Flavour::RemovedFromHiddenMultiThenShown | Flavour::NotATtyMulti) && !prefix.iter().any(|o| matches!(o, Op::Remove)) {
             out.insert(0, Op::Remove);
+        }
+        if matches!(self.flavour, Flavour::HiddenMulti | Flavour::NotATtyMulti) {
+            out.insert(0, Op::MpPrintln);
         }
         if self.flavour == Flavour::RemovedFromMulti && !prefix.iter().any(|o| matches!(o, Op::Remove | Op::RemoveFaulty(_))) {
             out.insert(0, Op::Remove);
@@ -141,6 +149,12 @@ impl Hist for C06 {
                 mp = Some(m);
                 b
             }
+            Flavour::NotATtyMulti => {
+                let m = MultiProgress::new();
+                let b = m.add(mk());
+                mp = Some(m);
+                b
+            }
             Flavour::RemovedFromHiddenMultiThenShown => {
                 let m = MultiProgress::with_draw_target(ProgressDrawTarget::hidden());
                 let b = m.add(mk());
@@ -163,6 +177,9 @@ impl Hist for C06 {
                     if self.flavour == Flavour::RemovedFromHiddenMultiThenShown {
                         mp.as_ref().unwrap().set_draw_target(ProgressDrawTarget::term_like(spy.boxed()));
                     }
+                }
+                Op::MpPrintln => {
+                    let _ = mp.as_ref().unwrap().println("two\nlines");
                 }
                 Op::RemoveFaulty(k) => {
                     let at = spy.st().fallible_calls + *k as usize;
@@ -217,9 +234,9 @@ impl Hist for C06 {
 
 fn configs(tier: Tier) -> Vec<(C06, usize)> {
     let mut v = Vec::new();
-    let flavours = [Flavour::HiddenTarget, Flavour::NotATty, Flavour::HiddenMulti, Flavour::RemovedFromMulti, Flavour::NotATtyHz, Flavour::RemovedFromHiddenMultiThenShown];
+    let flavours = [Flavour::HiddenTarget, Flavour::NotATty, Flavour::HiddenMulti, Flavour::RemovedFromMulti, Flavour::NotATtyHz, Flavour::RemovedFromHiddenMultiThenShown, Flavour::NotATtyMulti];
     for (k, &flavour) in flavours.iter().enumerate() {
-        let fin = [Fin::AndLeave, Fin::WithMessage, Fin::AndClear, Fin::AbandonWithMessage, Fin::Abandon, Fin::AndLeave][k];
+        let fin = [Fin::AndLeave, Fin::WithMessage, Fin::AndClear, Fin::AbandonWithMessage, Fin::Abandon, Fin::AndLeave, Fin::WithMessage][k];
         match tier {
             Tier::Quick => {
                 v.push((C06 { flavour, fin, reduced: false }, if flavour == Flavour::RemovedFromMulti { 3 } else { 2 }));
